@@ -51,6 +51,10 @@ def run(c):
         # traced runs whose handler decides by the path it is shown: a path that carries another run's tag is another run's trap event
         for j, wi in enumerate((5, 6, 7, 8)):
             ws[wi] = {"kind": "ptrace_paths", "prog": ["probe", "3000", "c17run-%d-%d" % (si, j)]}
+        # traced programs with descendants that are still alive when the run is cut or when the main program ends: their teardown must
+        # reach nobody else
+        ws[11] = {"kind": "ptrace", "prog": ["tree", "2", "c17tok%d_a" % si], "cancel_ms": 80}
+        ws[12] = {"kind": "ptrace", "prog": ["tree", "2", "c17tok%d_b" % si], "cancel_ms": 150}
         # a long call on environment 1 and a Ping on the same environment issued while it runs (every third set: 3.5 s)
         if si % 3 == 0:
             ws[9] = {"kind": "container", "env": 1, "prog": ["sleep", "3500"], "_long": True}
